@@ -31,6 +31,7 @@ class CidModel(object):
         self.encoding = encoding
         self.quote = '"'
         self.escape = '"'
+        self.skip_initial_space = False
 
     def names(self):
         return [f["name"] for f in self.fields]
@@ -45,6 +46,8 @@ class CidModel(object):
         if self.kind == "delimited" and (self.quote != '"' or self.escape != '"'):
             rows.append(["D", "Quote character", self.quote])
             rows.append(["D", "Escape character", self.escape])
+        if self.kind == "delimited" and self.skip_initial_space:
+            rows.append(["D", "Skip initial space", "True"])
         if self.header:
             rows.append(["D", "Header", str(self.header)])
         if self.fmt["ths"]:
@@ -69,7 +72,8 @@ class CidModel(object):
     def to_json(self):
         return {"kind": self.kind, "header": self.header, "fields": self.fields, "checks": self.checks,
                 "dec": self.fmt["dec"], "ths": self.fmt["ths"], "allowed": self.allowed_text,
-                "line_delimiter": self.line_delimiter, "sheet": self.sheet, "quote": self.quote, "escape": self.escape}
+                "line_delimiter": self.line_delimiter, "sheet": self.sheet, "quote": self.quote, "escape": self.escape,
+                "skip_initial_space": self.skip_initial_space}
 
     @staticmethod
     def from_json(d):
@@ -80,6 +84,7 @@ class CidModel(object):
                          allowed, d.get("allowed"), d.get("line_delimiter"), d.get("sheet"))
         model.quote = d.get("quote", '"')
         model.escape = d.get("escape", '"')
+        model.skip_initial_space = d.get("skip_initial_space", False)
         return model
 
 
